@@ -49,7 +49,7 @@ def wall_case(rng, recurring=False, thorough=False):
     if not recurring and pick < 0.3:
         # directed shapes: removal of the head with a later job behind it; a job that becomes due while suspended / paused
         d1, d2 = rng.choice([(150, 350), (50, 250), (150, 250)])
-        shape = rng.choice(["remhead", "suspend", "pause", "replacehead"])
+        shape = rng.choice(["remhead", "suspend", "pause", "replacehead", "mixedresume"])
         if shape == "remhead":
             ops = [{"t": 50, "op": "add", "id": "a", "delay": d1}, {"t": 50, "op": "add", "id": "b", "delay": d2}, {"t": rng.choice([50, 150]) if d1 > 100 else 50, "op": "rem", "id": "a"}]
             if rng.random() < 0.5:
@@ -60,6 +60,13 @@ def wall_case(rng, recurring=False, thorough=False):
             ops = [{"t": 50, "op": "add", "id": "a", "delay": 150}, {"t": 150, "op": rng.choice(["suspend", "bsuspend"])}, {"t": 250, "op": "add", "id": "b", "delay": 350}]
             if rng.random() < 0.8:
                 ops.append({"t": rng.choice([350, 450]), "op": rng.choice(["resume", "bresume"])})
+        elif shape == "mixedresume":
+            # local and broadcast commands mixed: whoever resumes, the pending job fires (nothing is added after the
+            # resume, so only the resume itself can arm the timer); a second resume from the other side changes nothing
+            ops = [{"t": 50, "op": "add", "id": "a", "delay": rng.choice([250, 450])}, {"t": 150, "op": rng.choice(["suspend", "bsuspend"])},
+                   {"t": 250, "op": rng.choice(["resume", "bresume"])}]
+            if rng.random() < 0.6:
+                ops.append({"t": 350, "op": "bresume" if ops[-1]["op"] == "resume" else "resume"})
         else:
             ops = [{"t": 50, "op": "add", "id": "a", "delay": 150}, {"t": 150, "op": "pause"}, {"t": 250, "op": "add", "id": "b", "delay": 50}]
         return {"kind": "c16.wall", "limit": 50, "pause_ms": 250, "horizon": ops[-1]["t"] + 750, "ops": ops}
@@ -140,7 +147,12 @@ def wall_remhead(d1=150, d2=350, trem=50, later=False, limit=50):
 def wall_directed():
     failing = {"kind": "c16.wall", "limit": 50, "pause_ms": 250, "horizon": 3350,
                "ops": [{"t": 50, "op": "add", "id": "e", "period": 1000, "dur": 25, "fails": True}, {"t": 50, "op": "add", "id": "x", "delay": 150, "dur": 0, "fails": True}]}
-    return [wall_inflight(k) for k in ("rem", "add1", "addr")] + [failing, wall_remhead(), wall_remhead(50, 250, 50, later=True)]
+    # local and broadcast suspend/resume mixed: whoever resumes, the pending job fires (nothing is added afterwards, so only
+    # the resume itself can arm the timer), and a further resume from the other side changes nothing
+    mixed = [{"kind": "c16.wall", "limit": 50, "pause_ms": 250, "horizon": 1200,
+              "ops": [{"t": 50, "op": "add", "id": "a", "delay": 450}, {"t": 150, "op": sus}, {"t": 250, "op": res}] + ([{"t": 350, "op": "bresume" if res == "resume" else "resume"}] if again else [])}
+             for (sus, res, again) in (("bsuspend", "resume", True), ("suspend", "bresume", True), ("bsuspend", "resume", False))]
+    return [wall_inflight(k) for k in ("rem", "add1", "addr")] + [failing, wall_remhead(), wall_remhead(50, 250, 50, later=True)] + mixed
 
 
 def inflight_cases():
